@@ -211,7 +211,7 @@ class _Desugar(ast.NodeTransformer):
 
 
 def _private_literal_constants(tree):
-    """{name: Constant} for module-level `_NAME = <str / int / bool / None literal>` bound exactly once in the whole module (no other
+    """{name: literal} for module-level `_NAME = <str / int / bool / None literal, or a tuple of such>` bound exactly once in the whole module (no other
     store, parameter, import, global declaration, del or for / with / except / comprehension target of that name anywhere)"""
     cand = {}
     for st in tree.body:
@@ -220,7 +220,11 @@ def _private_literal_constants(tree):
             tgt, val = st.targets[0].id, st.value
         elif isinstance(st, ast.AnnAssign) and isinstance(st.target, ast.Name) and st.value is not None:
             tgt, val = st.target.id, st.value
-        if tgt and tgt.startswith('_') and not tgt.startswith('__') and isinstance(val, ast.Constant) and (val.value is None or type(val.value) in (str, int, bool)):
+        def lit(v):
+            if isinstance(v, ast.Constant):
+                return v.value is None or type(v.value) in (str, int, bool)
+            return isinstance(v, ast.Tuple) and all(lit(x) for x in v.elts)      # a tuple of literals is as immutable as they are
+        if tgt and tgt.startswith('_') and not tgt.startswith('__') and val is not None and lit(val):
             cand[tgt] = None if tgt in cand else val       # bound twice at module level: not a constant
     cand = {k: v for k, v in cand.items() if v is not None}
     if not cand:
@@ -262,7 +266,14 @@ class _Propagate(ast.NodeTransformer):
 
     def visit_Name(self, node):
         if self.depth and isinstance(node.ctx, ast.Load) and node.id in self.consts:
-            return ast.copy_location(ast.Constant(value=self.consts[node.id].value), node)
+            import copy as _copy
+            v = self.consts[node.id]
+            if isinstance(v, ast.Constant):
+                return ast.copy_location(ast.Constant(value=v.value), node)
+            new = _copy.deepcopy(v)
+            for x in ast.walk(new):
+                ast.copy_location(x, node)
+            return new
         return node
 
 
